@@ -239,6 +239,14 @@ def _run(case, desper, res, tmp):
         if at > 0:
             flags.add('repeated')
         allowed_dirs |= dir_keys
+        if status == 'ValueError':
+            # whether the rules before the offending one were already applied
+            # when the call is rejected is not stated: only "nothing
+            # unexpected appears" is judged for this population
+            res.stats['dontcare_partial_population_on_error'] += 1
+            for produced in per_rule:
+                allowed_files |= set(produced)
+            per_rule = []
         # ---- R1/R2/R4 per key
         last_rule = {}
         for ri, produced in enumerate(per_rule):
